@@ -332,7 +332,7 @@ def run_perms(ctx, sh):
             return ('exc', e)
     count = 0
     distinct = set()
-    for cs, trace, (status, res) in chooser.explore(run, max_runs=math.factorial(n) ** m + 1):
+    for cs, trace, (status, res) in chooser.explore(run, max_runs=500000):
         count += 1
         ctx.evals += 1
         case = {'cfg': {}, 'kind': 'perms', 'n': n, 'm': m, 'api': api, 'choices': cs}
